@@ -301,7 +301,7 @@ pub fn run(report: &mut Report, replay: Option<&Value>) {
         let scratch = Scratch::new("c06c");
         check_one(r, &Pool::default(), &scratch, v["schema"].as_str().unwrap_or(""), v["schema_ext"].as_str().unwrap_or("graphql"), v["document"].as_str().unwrap_or(""), v["rule"].as_str().unwrap_or(""), v["parent_kind"].as_str().unwrap_or(""), v["at"].as_str().unwrap_or(""), &[]);
     });
-    let (n_bases, max_edits) = if report.thorough() { (20_000, 30) } else { (1_500, 18) };
+    let (n_bases, max_edits) = if report.thorough() { (20_000, 30) } else { (4_000, 20) };
     let mut stats = GenStats::default();
     let cfg = CaseCfg { allow_json: true, ..CaseCfg::default() };
     let tapes = sample_tapes(report.seed, 0xC06, n_bases, 3072);
